@@ -912,6 +912,7 @@ func (c *concCtx) scenarioInjectedPending(consumer, kind string) {
 		recs = []rawRec{{wd: 0xffffffff, mask: inQOverflow}, {wd: wdSub, mask: inModify, name: kernelPad("x")}}
 	case "unknown_wd":
 		recs = []rawRec{{wd: 987654, mask: inModify, name: kernelPad("x")}, {wd: 987654, mask: inUnmount}}
+	case "eof", "short": // the read itself fails: nothing (io.EOF) resp. less than one header
 	case "create_dir":
 		recs = []rawRec{{wd: wdSub, mask: inCreate | inIsdir, name: kernelPad("newdir")}, {wd: wdSub, mask: inMovedFrom | inIsdir, cookie: 7, name: kernelPad("a")}}
 	}
@@ -919,7 +920,10 @@ func (c *concCtx) scenarioInjectedPending(consumer, kind string) {
 	for _, r := range recs {
 		buf = append(buf, r.bytes()...)
 	}
-	_, werr := unix.Write(injectFd, buf)
+	if kind == "short" {
+		buf = make([]byte, 9)
+	}
+	_, werr := unix.Write(injectFd, buf) // kind "eof": a zero-length datagram
 	check(werr)
 	time.Sleep(40 * time.Millisecond) // the reader gets as far as this consumer lets it
 
@@ -970,6 +974,13 @@ func (c *concCtx) scenarioInjectedPending(consumer, kind string) {
 		if !settle(func() bool { return fsnotifyGoroutines() <= g0 }) {
 			c.report("C13", "C13:reader-goroutine-alive-after-close", fmt.Sprintf("%s: reader goroutines %d -> %d after Close returned", name, g0, fsnotifyGoroutines()), map[string]interface{}{})
 		}
+		// the notification descriptor (here: the reader's end of the socket pair) is released: the peer sees it
+		if !settle(func() bool {
+			err := unix.Send(injectFd, []byte{0}, unix.MSG_NOSIGNAL|unix.MSG_DONTWAIT)
+			return errors.Is(err, unix.EPIPE) || errors.Is(err, unix.ECONNRESET) || errors.Is(err, unix.ENOTCONN)
+		}) {
+			c.report("C13", "C13:notification-descriptor-open-after-close", name+": the Watcher's notification descriptor is still open after Close returned and both channels closed", map[string]interface{}{})
+		}
 	}
 	c.r.emit("scenario", "scenario "+strings.ReplaceAll(name, " ", "_"), "ok")
 }
@@ -1018,7 +1029,7 @@ func runConc(r *rec, g *rng, tier, what, out string, extra map[string]interface{
 		}
 		// pending values from records that are hard to stage with the real kernel (injected Watcher)
 		for _, cs := range []string{"neither", "onlyEvents", "onlyErrors"} {
-			for _, k := range []string{"unmount", "ignored", "delete_self", "move_self", "move_self_mark_gone", "overflow", "unknown_wd", "create_dir"} {
+			for _, k := range []string{"unmount", "ignored", "delete_self", "move_self", "move_self_mark_gone", "overflow", "unknown_wd", "create_dir", "eof", "short"} {
 				c.scenarioInjectedPending(cs, k)
 			}
 		}
@@ -1041,8 +1052,10 @@ func runConc(r *rec, g *rng, tier, what, out string, extra map[string]interface{
 		c.scenarioLeak(n)
 		c.scenarioNewFails()
 		c.raceClose(r, "C13", thorough)
-		for _, k := range []string{"unmount", "overflow", "move_self_mark_gone", "delete_self"} {
-			c.scenarioInjectedPending("onlyEvents", k)
+		for _, cs := range []string{"onlyEvents", "both", "onlyErrors"} {
+			for _, k := range []string{"unmount", "overflow", "move_self_mark_gone", "delete_self", "eof", "short"} {
+				c.scenarioInjectedPending(cs, k)
+			}
 		}
 		// Close with an error / an overflow pending and nobody reading Errors: everything is released all the same
 		for _, p := range []string{"error", "overflow"} {
